@@ -415,8 +415,12 @@ fn main() {
     });
     // related bounds: spellings of one another (zero padding, pre-releases, revisions),
     // evaluated with direct calls for both halves
-    const REL: [&str; 16] = ["", "0", "1", "1.0", "1.0.0", "1alpha", "1.0alpha", "1rc1", "1.0rc1", "1nb1", "1.0nb1", "1_", "2", "1.5", "1pl", "1.0pl1"];
-    run.bound("two-bound, related spellings: 16 x 16 (L, U) x 16 package versions x 4 operator combinations, halves by direct calls");
+    const REL: [&str; 34] = [
+        "", "0", "1", "1.0", "1.0.0", "1alpha", "1.0alpha", "1rc1", "1.0rc1", "1nb1", "1.0nb1", "1_", "2", "1.5", "1pl", "1.0pl1",
+        // several revisions of one version (a range between two revisions of the same version), and of its spellings
+        "1.0nb2", "1.0nb3", "1nb2", "1nb3", "1.0nb10", "2nb1", "2nb2", "1.5nb1", "1.5nb2", "0nb1", "1.0.0nb1", "1.0.0nb2", "1alphanb1", "1rc1nb2", "1rc1nb1", "1.0a", "1.0anb1", "1_nb2",
+    ];
+    run.bound("two-bound, related spellings: 34 x 34 (L, U) x 34 package versions x 4 operator combinations, halves by direct calls");
     let rel: Vec<usize> = (0..REL.len()).collect();
     par_items(&run, "C03 related bounds", &rel, |_, ai, t| {
         for lo in REL {
